@@ -272,7 +272,7 @@ func (db *DB) replayAndSetupWriteAheadLog() error {
 		log.Printf("done replaying WAL in %v with %d records\n", elapsedDuration, numRecords)
 	}
 
-	err = os.RemoveAll(walBasePath)
+	err = removeWalFolder(walBasePath)
 	if err != nil {
 		return err
 	}
@@ -289,4 +289,25 @@ func (db *DB) replayAndSetupWriteAheadLog() error {
 	}
 	db.wal = writeAheadLog
 	return nil
+}
+
+// removeWalFolder removes the WAL files oldest first and the folder after them. Everything in them was just flushed into
+// a table; should we get killed in between, the newest files are what is left, and replaying the end of a log over the
+// state of the whole log changes nothing. Removing in directory order (os.RemoveAll on the folder) could leave an older
+// file without the newer ones, and its replay would bring overwritten values back.
+func removeWalFolder(walBasePath string) error {
+	// the entries come sorted by file name, which is the order the files were written in
+	entries, err := os.ReadDir(walBasePath)
+	if err != nil {
+		return err
+	}
+
+	for _, entry := range entries {
+		err = os.RemoveAll(filepath.Join(walBasePath, entry.Name()))
+		if err != nil {
+			return err
+		}
+	}
+
+	return os.RemoveAll(walBasePath)
 }
